@@ -32,12 +32,20 @@ Canonical(p) ==
       c    == Crc16(body)
   IN body \o <<c % 256, c \div 256>>
 
-\* number of escape insertions = floor(run/4) summed over maximal 1b runs
-RECURSIVE EscCountFrom(_, _, _)
-EscCountFrom(p, i, run) ==
-  IF i > Len(p) THEN 0
-  ELSE IF p[i] = ESC /\ run = 3 THEN 1 + EscCountFrom(p, i + 1, 0)
-       ELSE EscCountFrom(p, i + 1, IF p[i] = ESC THEN run + 1 ELSE 0)
+\* number of escape insertions = floor(run/4) summed over maximal 1b runs; scanned in blocks of 256 bytes with
+\* accumulators so that the recursion depth stays at |p| / 256 + 256 (payloads of 2^16 and more bytes are judged)
+RECURSIVE EscScanRange(_, _, _, _, _)
+EscScanRange(p, i, j, cnt, run) ==
+  IF i > j THEN <<cnt, run>>
+  ELSE IF p[i] = ESC /\ run = 3 THEN EscScanRange(p, i + 1, j, cnt + 1, 0)
+       ELSE EscScanRange(p, i + 1, j, cnt, IF p[i] = ESC THEN run + 1 ELSE 0)
+RECURSIVE EscScanFrom(_, _, _, _)
+EscScanFrom(p, i, cnt, run) ==
+  IF i > Len(p) THEN cnt
+  ELSE LET j == IF i + 255 > Len(p) THEN Len(p) ELSE i + 255
+           r == EscScanRange(p, i, j, cnt, run)
+       IN EscScanFrom(p, j + 1, r[1], r[2])
+EscCountFrom(p, i, run) == EscScanFrom(p, i, 0, run)
 FrameLen(p) ==
   LET e == Len(p) + 4 * EscCountFrom(p, 1, 0) IN 8 + e + PadCountOfLen(e) + 8
 
